@@ -251,6 +251,26 @@ package inference
 //@    (not (= (. (undet result) Implicates) nil)) (not (= (. (undet result) Implicants) nil))
 //@    (not (= (. (undet result) Implicates) (. (undet result) Implicants))))
 
+
+//@ -- C05/C03/C06: replay of one entry of a dependency's fact.  A determined verdict is ALWAYS handed to
+//@ -- observeSiteExplanation (that call is what reports a disagreement with what is already known - skipping it for
+//@ -- already determined sites loses the conflict between two sibling dependencies); every forward edge and every
+//@ -- backward edge of an undetermined value is handed to observeImplication with the right orientation.
+//@ -- Values decoded from dependency facts are ASSUMED well-formed (they were exported by this same code).
+//@ func (*Engine).ObserveUpstream$2
+//@ prop C05 C03 C06
+//@ requires (engOK e)
+//@ assume imported-values-are-well-formed (valOK val)
+//@ modifies (map e.primitive.objPathCache) (obj e.inferredMap.mapping) (map e.inferredMap.mapping.inner) (elems e.inferredMap.mapping.Pairs) (obj (omPair e.inferredMap.mapping 0)) (obj (implOf e.inferredMap)) (map (. (implOf e.inferredMap) inner)) (elems (. (implOf e.inferredMap) Pairs)) (obj (omPair (implOf e.inferredMap) 0))
+//@ ensures continues (= result true)
+//@ ensures engine-ok-after (and (engOK e) (sameEngine e))
+//@ ensures determined-kept (determinedKept e)
+//@ ensures imported-verdict-is-always-observed (=> (isDet val) (and (= (calls "observeSiteExplanation") 1) (= (callarg "observeSiteExplanation" 0 1) site) (= (callarg "observeSiteExplanation" 0 2) (detBool val)) (= (calls "observeImplication") 0)))
+//@ loop 0 invariant engine-ok (and (engOK e) (sameEngine e) (determinedKept e) (isUndet val) (= v (undet val)))
+//@ loop 0 step forward-edge-replayed (and (= (calls "observeImplication") 1) (= (callarg "observeImplication" 0 1) site) (= (callarg "observeImplication" 0 2) (local implicantSite)) (= (callarg "observeImplication" 0 3) (local assertion)))
+//@ loop 1 invariant engine-ok (and (engOK e) (sameEngine e) (determinedKept e) (isUndet val) (= v (undet val)))
+//@ loop 1 step backward-edge-replayed (and (= (calls "observeImplication") 1) (= (callarg "observeImplication" 0 1) (local implicantSite)) (= (callarg "observeImplication" 0 2) site) (= (callarg "observeImplication" 0 3) (local assertion)))
+
 //@ -- the closure that takes the upstream snapshot at the end of ObserveUpstream
 //@ func (*Engine).ObserveUpstream$3
 //@ prop C06 C03 C05
